@@ -9,9 +9,12 @@ import (
 	"path/filepath"
 	"runtime"
 	"sync"
+	"sync/atomic"
+	"time"
 
 	"github.com/bluenviron/gohlslib/v2/pkg/storage"
 	"verif/internal/ev"
+	"verif/internal/hx"
 )
 
 // C17 — storage vs byte-slice model. RAM and disk factories are driven in lock-step with a
@@ -522,11 +525,12 @@ func checkC17(tier string, seed int64) int {
 	}
 	close(ch)
 	wg.Wait()
+	readerVsFinalize(rep, tier, seed, obs)
 	e := &ev.Evidence{
 		PropertyID: "C17", Tier: tier, Seed: seed, Level: "exploration",
 		Coverage: map[string]any{
 			"evaluations": n, "distinct_nontrivial": len(sigs),
-			"rule":               "seeded random operation histories (NewPart, Write, Seek start/current inside or past the extent followed by a write, part/file Reader before and after Finalize, Size, Remove, readers used after Remove) run in lock-step on NewFactoryRAM, NewFactoryDisk and a [][]byte model; non-trivial = >= 2 parts; distinct = distinct operation-kind sequences",
+			"rule":               "(then: forced interleavings of Part.Reader with Finalize at the hook inside partDisk.Reader, see observed.reader_vs_finalize_*) seeded random operation histories (NewPart, Write, Seek start/current inside or past the extent followed by a write, part/file Reader before and after Finalize, Size, Remove, readers used after Remove) run in lock-step on NewFactoryRAM, NewFactoryDisk and a [][]byte model; non-trivial = >= 2 parts; distinct = distinct operation-kind sequences",
 			"samples":            samples,
 			"observed":           obs,
 			"known_findings_hit": rep.KnownHits(),
@@ -565,5 +569,93 @@ func init() {
 		}
 		fmt.Println("held on this history")
 		return 0
+	}
+}
+
+// readerVsFinalize: the one concurrency the muxer produces on a storage File - an HTTP handler opens
+// the reader of a part while the writer finalizes the file. The hook inside partDisk.Reader (reached
+// while the part is still in RAM) starts Finalize and gives it time to run or to block; whatever
+// order results, the reader must deliver the part's bytes, before and after ("RAM-backed and
+// disk-backed storage are observationally identical": the RAM reader cannot fail here). The verdict
+// does not depend on which order happened.
+func readerVsFinalize(rep *ev.Reporter, tier string, seed int64, obs map[string]int) {
+	hx.Install()
+	n := 60
+	if tier == "thorough" {
+		n = 2000
+	}
+	dir, err := os.MkdirTemp("", "c17rf")
+	if err != nil {
+		fmt.Println("HARNESS: C17 reader-vs-finalize:", err)
+		return
+	}
+	defer os.RemoveAll(dir)
+	defer hx.SetStorageHook(nil)
+	for i := 0; i < n; i++ {
+		rng := rand.New(rand.NewSource(seed*7919 + int64(i)))
+		f, err := storage.NewFactoryDisk(dir).NewFile(fmt.Sprintf("rf%d.mp4", i))
+		if err != nil {
+			fmt.Println("HARNESS: C17 reader-vs-finalize:", err)
+			return
+		}
+		np := 1 + rng.Intn(4)
+		var parts []storage.Part
+		var want [][]byte
+		for k := 0; k < np; k++ {
+			p := f.NewPart()
+			b := make([]byte, rng.Intn(3000))
+			rng.Read(b)
+			p.Writer().Write(b)
+			parts = append(parts, p)
+			want = append(want, b)
+		}
+		target := rng.Intn(np)
+		finDone := make(chan struct{})
+		var finStarted atomic.Bool
+		hx.SetStorageHook(func(point string, key any) {
+			if point != "partdisk.reader" || key != any(parts[target]) || finStarted.Swap(true) {
+				return
+			}
+			go func() { f.Finalize(); close(finDone) }()
+			select {
+			case <-finDone:
+				// Finalize ran inside the reader's window
+			case <-time.After(40 * time.Millisecond):
+				// Finalize is waiting for the reader to leave
+			}
+		})
+		ref := map[string]any{"property": "C17", "reader_vs_finalize": i, "seed": seed}
+		read := func(when string) {
+			defer func() {
+				if pv := recover(); pv != nil {
+					rep.Report("C17/reader-vs-finalize/panic", fmt.Sprintf("case %d: Part.Reader of part %d of %d %s panicked: %v", i, target, np, when, pv), ref)
+				}
+			}()
+			r, err := parts[target].Reader()
+			if err != nil {
+				rep.Report("C17/reader-vs-finalize/error", fmt.Sprintf("case %d: Part.Reader of part %d %s: %v", i, target, when, err), ref)
+				return
+			}
+			got, err := io.ReadAll(r)
+			r.Close()
+			if err != nil || !bytes.Equal(got, want[target]) {
+				rep.Report("C17/reader-vs-finalize/bytes", fmt.Sprintf("case %d: reader of part %d opened %s returned %d bytes (err %v), written %d", i, target, when, len(got), err, len(want[target])), ref)
+			}
+		}
+		read("while the file is being finalized")
+		if !finStarted.Load() {
+			obs["reader_vs_finalize_hook_not_reached"]++
+			f.Finalize()
+		} else {
+			select {
+			case <-finDone:
+			case <-time.After(20 * time.Second):
+				rep.Report("C17/reader-vs-finalize/finalize-stuck", fmt.Sprintf("case %d: Finalize did not return after the reader left", i), ref)
+			}
+		}
+		hx.SetStorageHook(nil)
+		read("after Finalize")
+		obs["reader_vs_finalize_cases"]++
+		f.Remove()
 	}
 }
